@@ -406,3 +406,16 @@ _run_n06 = run
 def run(ctx, rep, tier):
     _run_n06(ctx, rep, tier)
     _state_member_holds_every_number(ctx, rep, tier)
+
+
+_run_r6 = run
+
+
+def run(ctx, rep, tier):
+    _run_r6(ctx, rep, tier)
+    from .shared import delegate_fn
+    from . import c15
+    delegate_fn(ctx, rep, tier, c15._run_i15, ("C15.c",), "C06.o", "the bytes a string action stores are the bytes of the machine's value: every escape in an emitted C literal has a fixed length, so the C compiler reads back "
+             "exactly the bytes that were written", prop="C15")
+    from .shared import delegate
+    delegate(ctx, rep, tier, "C03", ("C03.i",), "C06.p", "the length counter of a string can hold every length the buffer can reach (an unterminated str[N] holds N): the out-of-space test compares the counter with N")
